@@ -18,6 +18,8 @@
 //!   items      `const` (pure initialiser), `struct` with named fields, `enum` (unit / tuple / struct variants,
 //!              explicit discriminants), free `fn`, inherent methods (`&self`, `self`, `&mut self`),
 //!              `impl From<A> for B { fn from }` (used by `?`); no generics (lifetimes are ignored)
+//!              (`B` may be a primitive integer: `Self` is then that integer type), `impl Trait for T { fn name }` of a trait
+//!              without generic arguments, selected by `Sel::TraitFn` (`impl Default for T { fn default }`), as the method `T::name`
 //!   types      `u8 u16 u32 u64 usize` (Nat + width), `bool`, `()`, tuples, `[T; N]` / `Vec<T>` / `&[T]` / `Bytes`
 //!              (List), `Option<T>`, `Result<T, E>` (return type only), selected structs/enums, `&T`/`&mut T`
 //!              transparent; table-mapped: `io::Error`, `Range<u64>`, `octets::{OctetsMut, Octets, BufferTooShortError}`
@@ -360,6 +362,7 @@ fn sel_text(s: &manifest::Sel) -> String {
         Fn(n) => format!("fn {}", n),
         Method(t, n) => format!("fn {}::{}", t, n),
         From(d, s) => format!("impl From<{}> for {}", s, d),
+        TraitFn(tr, t, n) => format!("impl {} for {} {{ fn {} }}", tr, t, n),
     }
 }
 
